@@ -116,6 +116,13 @@ def match_known(ob, prop, known):
 # Rules that follow calls themselves (their verdict does not depend on where a piece of code lives):
 HELPER_AWARE = {'CAPACITY', 'IN-RANGE', 'INDEX-COVER', 'INDEX-SYNC', 'WINDOW-FORM', 'CTOR-AGREE', 'NARROW-SCOPE', 'EFFECT', 'EFFECT-IR', 'ACCUM-ONCE', 'KEY-ARITH', 'ITER-INVALIDATION', 'OWN-ALIAS', 'FIELD-COVER', 'SENTINEL-EXCLUDED',
                 'PRECISION', 'TYPE', 'SLOPE-ORDER', 'INT-INTERCEPT', 'CONV-RANGE', 'TABLE-WIDTH', 'DATA-EXACT', 'BACK-GUARD', 'SELECT-RANGE'}
+# Rules exempted on measured evidence (third round, DESIGN 10.7): over the 198 neutral patches each had obligations in functions with an
+# inlined out-of-vocabulary helper in at least 5 patches (`PGM_SOFTEN_STATS`: KIND 34, TOMB-GUARD 16, TOMB-ESCAPE 14, LOOP-AGREE 13, SEAM 12,
+# RANK-AGREE / AGREE-EPS / CLOSING / NO-DROP / CUT-SITES 10, GAP-GUARD 8, GEOM-GUARDS / REJECT-ONLY-GEOMETRIC 6, BUCKET-AGREE / EMIT-GUARD 5)
+# and reported nothing on any of them with softening switched off.  The rules that did report something raw (RANGE-FORM, CAP, CLAMP,
+# FORWARD, END-GUARD, GUARD-DOM, EXC-BOUNDARY, SER-AGREE, REBASE-AGREE, MERGE-PRECEDENCE) and those exposed fewer than 5 times stay softened.
+HELPER_AWARE |= {'KIND', 'TOMB-GUARD', 'TOMB-ESCAPE', 'LOOP-AGREE', 'SEAM', 'RANK-AGREE', 'AGREE-EPS', 'CLOSING', 'NO-DROP', 'CUT-SITES', 'SENTINEL',
+                 'GAP-GUARD', 'GEOM-GUARDS', 'REJECT-ONLY-GEOMETRIC', 'BUCKET-AGREE', 'EMIT-GUARD'}
 
 
 # obligations decided on the flat view of a function (rules/inline.py: flat), which contains the bodies of all its helpers
@@ -155,6 +162,22 @@ def unknown_helpers(fn):
 def soften_unknown(obs):
     """a violation reported in a function, part of whose body now lives in a helper the rule does not follow, is not a verdict:
     the rule saw only half of the code.  It becomes undecided (exit 2), never silently a pass."""
+    stats = os.environ.get('PGM_SOFTEN_STATS')
+    if stats:
+        # development aid (selftest): which rules had an obligation in a function with an out-of-vocabulary helper, i.e. were
+        # *exposed* to a moved body - the evidence the exemption list below is maintained with
+        seen = set()
+        for o in obs:
+            if o.fn is not None:
+                try:
+                    uh = unknown_helpers(o.fn)
+                except Exception:
+                    uh = []
+                if uh:
+                    seen.add((o.rule.split(':')[-1], str(o.arm or '').split(':')[0], o.status))
+        with open(stats, 'a') as fh:
+            for (r, a, st) in sorted(seen):
+                fh.write(f"{os.environ.get('PGM_REPO', '')}\t{r}\t{a}\t{st}\n")
     if os.environ.get('PGM_NO_SOFTEN'):     # development aid (selftest): show what the rules say before softening
         return obs
     for o in obs:
